@@ -16,7 +16,7 @@ RULE = ("Hypothesis draws (shape 1..9 per side with parity classes, cutoff class
         "H=1/(1+(|f|/cutoff)^(2*order)) on fftfreq grids; plus an enumerated part: every axis length 1..16 on "
         "each of the three axes x 3 cutoffs x 3 orders. Non-trivial = at least one odd side and an active "
         "cutoff (0 < cutoff < 0.5*sqrt(3)). Distinct = distinct descriptor hash.")
-RULE += (" " + 'Also: int16 / uint8 input images.')
+RULE += (" " + 'Also: int16 / uint8 input images. Round 7: negative cutoffs inside (-sqrt(3)/2, 0) (pass-through), and high-pass calls with the same shape / cutoff / order before the low-pass.')
 TOLERANCES = {"value": "1e-4 * max|input| (float32 FFT vs float64 reference)",
               "linearity": "2e-4 * scale", "mean": "1e-4 * max|input|"}
 ASSUMPTIONS = ["numpy backend only (cupy is not installed)",
@@ -100,6 +100,14 @@ def judge(d):
     reals = {}
     with warnings.catch_warnings():
         warnings.simplefilter("ignore")
+        if d.get("pre") == "highpass":
+            # the high-pass filters share the cached Butterworth weights with the low-pass filters: a preceding
+            # high-pass call with the same shape / cutoff / order must not change what the low-pass returns
+            from acryo import _utils as _u, pipe as _p
+            xf = np.asarray(x, dtype=np.float32)
+            _u.highpass_filter(xf, cutoff, order)
+            _u.highpass_filter_ft(xf, cutoff, order)
+            _p.highpass_filter(cutoff, order)(xf, 1.37)
         for name, (fr, ff) in implementations(cutoff, order).items():
             if fr is not None:
                 r = np.asarray(fr(x))
@@ -161,7 +169,7 @@ def judge(d):
 
 
 cutoffs = st.one_of(
-    st.sampled_from([0.0, -1.0, 1e-3, 0.866, 0.87, 1.0, 5.0]),
+    st.sampled_from([0.0, -1.0, -0.5, -0.3, -0.05, 1e-3, 0.866, 0.87, 1.0, 5.0]),
     st.floats(0.02, 0.86).map(lambda v: round(v, 4)),
     st.floats(0.02, 0.86).map(lambda v: round(v, 4)),
 )
@@ -173,6 +181,7 @@ def cases(draw):
         "shape": draw(gen.box_shapes(1, 9)),
         "cutoff": draw(cutoffs),
         "order": draw(st.integers(1, 4)),
+        "pre": draw(st.sampled_from(["none", "none", "highpass"])),
         "kind": draw(st.sampled_from(["noise", "noise", "const", "delta", "offset", "int16", "uint8"])),
         "seed": draw(gen.seeds),
         "a": draw(st.floats(-3, 3).map(lambda v: round(v, 3))),
